@@ -150,6 +150,7 @@ pub fn property(tier: Tier) -> Property {
         ("extract-fp", LangId::Fp, 800, 16_000),
     ] {
         let mut cfg = MixedCfg::for_lang(lang);
+        cfg.hist.namings = crate::tm::Naming::diverse();
         cfg.max_ops = tier.pick(8, 12);
         stages.push(Box::new(Stage {
             name,
